@@ -37,6 +37,25 @@ CLAIMS = {
              "CPython), z3. Unverified: str/bytes/bytearray/unicode indexing helpers, SetItemInt/DelItemInt, slicing (SliceObject), "
              "helper selection in IndexNode.",
         ref="4 C15"),
+    "C19": dict(
+        text="Proof (a) on the abstract CPython object model that the comparison helpers of Optimize.c::PyObjectCompare taken from the "
+             "generated module answer like CPython: __Pyx_PyObject_CompareIntInt<Op> for all six operators and both result kinds "
+             "(sign/size comparison, 1- and 2-digit fast paths, digit loop with invariant and termination) returns value(op1) <op> value(op2) "
+             "for exact ints of ANY size; the dispatcher __Pyx_PyObject_CompareBool<Op>_object_object compares exact floats / ints by value, "
+             "sends every other pair of builtin types to the helper for exactly that pair in that argument order and everything else to "
+             "PyObject_RichCompare(op1, op2, Py_<OP>); __Pyx_PyLong_{Eq,Ne}ObjC (x == c, x != c). (b) For a catalogue of C-integer functions "
+             "(if/elif chains rewritten into C switches, `in`/`not in` against literal tuples and bytes literals, chained comparisons, "
+             "and/or/not mixes) the C function the working-tree compiler emits returns, for ALL argument values, the value Python's "
+             "semantics give the same source text (reference evaluator dv/pyref.py over the catalogue's own ast, validated against "
+             "CPython every run). Kernel: programs are the stated catalogue; inputs are universally quantified.",
+        note="Trusted: dv C front end, dv/pyobj.py (PyLong 3.12 representation contract, exact-type predicates as views of Py_TYPE, "
+             "PyFloat_AS_DOUBLE, PyObject_RichCompare = CPython's own answer), z3; ASSUMED arithmetic lemma LEX (positional notation: "
+             "ints with equal sign and digit count compare like their most significant differing digit; fewer digits = smaller "
+             "magnitude) - stated, not proved, needs induction over the digit count. NOT covered: the int/float, str and bytes helpers "
+             "(their answers are uninterpreted at the dispatcher's call sites: only the routing is decided), the object-returning "
+             "dispatcher variants and typed variants (same template text), UnicodeEquals/UCS4, dict/set membership, operand evaluation "
+             "order for operands with side effects, mixed signed/unsigned C comparisons.",
+        ref="4 C19"),
     "C18": dict(
         text="Proof, on an abstract str model (code points / UTF-8 bytes handed to the decoder), that the C-integer formatting helpers "
              "taken from the generated module produce exactly CPython's text: __Pyx____Pyx_PyUnicode_From_<T> == format(v, '<0?><width>[doxX]') "
